@@ -555,8 +555,12 @@ func emitDec(l decLayer, origin string) {
 		w.Emit(vt.M{"ev": "panic", "layer": l.name, "origin": origin, "in": vt.Ints(l.in)})
 		return
 	}
-	w.Emit(vt.M{"ev": "dec", "layer": l.name, "origin": origin, "in": vt.Ints(l.in), "acc": l.acc, "trunc": l.trunc, "d": l.d,
-		"contents": l.contents, "reser": vt.Ints(l.reser), "reserok": l.reserOK})
+	in := l.in
+	if !l.acc && len(in) > 48 {
+		in = in[:48] // a rejected input is never judged (rejecting is always allowed): keep a prefix for the reader
+	}
+	w.Emit(vt.M{"ev": "dec", "layer": l.name, "origin": origin, "in": vt.Ints(in), "inlen": len(l.in), "acc": l.acc, "trunc": l.trunc,
+		"d": l.d, "contents": l.contents, "reser": vt.Ints(l.reser), "reserok": l.reserOK})
 }
 
 // encodeCase: serialize a generated packet with the real code (FixLengths), decode it again layer by
